@@ -156,10 +156,13 @@ def run(ctx):
         c0 = lastext.concretise(btext, rng, dict(fixed))
         c1 = lastext.concretise(t["text"], rng, dict(fixed))
         eng = rng.choice(["numpy", "normal"])
-        ev = lastext.read_event("C09", {"text": t["text"], "opts": opts}, c1, engines=(eng,), names=fixed["names"], null=fixed["null"])
+        # the default read policy spelled out as a list must mean the same (for a COMMA file lasio swaps in its comma policy)
+        rp = {"read_policy": ["comma-decimal-mark", "run-on(-)", "run-on(.)"]} if rng.random() < 0.3 else {}
+        ev = lastext.read_event("C09", {"text": t["text"], "opts": opts}, c1, engines=(eng,), names=fixed["names"], null=fixed["null"],
+                                extra_kw=rp or None)
         events.append(ev)
-        meta.append({"tag": [t["base"], t["ops"]], "concrete": c1, "engine": eng})
-        d0, d1 = digest_of(c0, engine=eng), digest_of(c1, engine=eng)
+        meta.append({"tag": [t["base"], t["ops"]], "concrete": c1, "engine": eng, "read_kw": rp})
+        d0, d1 = digest_of(c0, engine=eng, **rp), digest_of(c1, engine=eng, **rp)
         kinds = [ln.get("sec", "") for ln in btext]     # section letter per base line
         sec = "none"
         kinds = []
